@@ -25,7 +25,7 @@ RULE = (
     "live objects (A, B, C) from {(sqA, triA, bar) int, (hollow, dia, U) int, (triA, sqB, bar) float, (circle c8, fsq, ftri) "
     "curved, and three sets in which A (a square / two squares / a hollow square) starts 100 units away and move(A) brings it "
     "across B and C}; event menu: A|B, A&B, A-B, B-A, A^B, B in A, float(A.jordans[0]), A==B, A.move(1,1), A.scale(2,2), "
-    "A.rotate(pi/2), curve(A).intersection(curve(B)); all histories of depth <= 2 (thorough 3) explored breadth-first on the real code, states "
+    "A.rotate(pi/2), curve(A).intersection(curve(B)), A.scale(-1,-1); all histories of depth <= 2 (thorough 3) explored breadth-first on the real code, states "
     "de-duplicated on the full representation incl. cached lengths and subdivision; in every state the battery (area, "
     "moment, signed length and orientation of every curve, box, membership of a 5x5 grid, curve-curve intersections, A==B, B in A, A in B, X|C, "
     "X&C, X-C, X^C) is asked of the live objects and of freshly rebuilt copies and must agree (exactly for rational "
@@ -39,7 +39,7 @@ ASSUMPTIONS = [
 ]
 CASE_TIMEOUT = 3000
 
-EVENTS = ["A|B", "A&B", "A-B", "B-A", "A^B", "B in A", "len(A)", "A==B", "move(A)", "scale(A)", "rotate(A)", "jA&jB"]
+EVENTS = ["A|B", "A&B", "A-B", "B-A", "A^B", "B in A", "len(A)", "A==B", "move(A)", "scale(A)", "rotate(A)", "jA&jB", "flip(A)"]
 
 OPERANDS = {
     "poly-int": (["L", "P.sqA#int"], ["L", "P.triA#int"], ["L", "P.bar#int"]),
@@ -93,6 +93,9 @@ def apply_event(ev, A, B, name=None):
         return A == B
     if ev == "jA&jB":
         return [ja.intersection(jb) for ja in A.jordans for jb in B.jordans]
+    if ev == "flip(A)":
+        # uniform negative scale = rotation by 180 degrees: keeps the orientation
+        return A.scale(-1, -1)
     if ev == "move(A)":
         return A.move(*mv)
     if ev == "scale(A)":
@@ -339,7 +342,7 @@ def run_case(spec):
         res = {"states": 1, "transitions": 1, "violations": [(spec["history"][len(prefix):], t, m) for t, m in state[1]], "max_depth": 0, "capped": False}
     else:
         far = name in PARAMS
-        transforms = {EVENTS.index(e) for e in ("move(A)", "scale(A)", "rotate(A)")}
+        transforms = {EVENTS.index(e) for e in ("move(A)", "scale(A)", "rotate(A)", "flip(A)")}
 
         def enabled(h, ev):
             # far sets, quick tier: the second event is a transformation (warm caches, then move)
